@@ -28,45 +28,54 @@ structure St where
   m : State := init
   sp : PV.UThreadSpec.S := {}
   pend : List Pend := []
+  /-- keys whose first use was a real (barrier) race: the number of native keys created is not determined -/
+  raced : List Nat := []
 
 inductive Res
   | ok (m : State) (native : List String)
   | bad
   | fault (e : Err)
 
+/-- a native key is shown as `<PUThreadKey id>.<index among that key's native keys>` (`?` for a raced key) -/
+def showN (raced : List Nat) (s : State) (n : Nat) : String :=
+  let k := (s.nkey n).owner
+  let idx := ((List.range n).filter fun m => (s.nkey m).owner = k).length
+  toString k ++ "." ++ (if k ∈ raced then "?" else toString idx)
+
 /-- run model events, collecting the native TLS calls they stand for -/
-def nativeOf (s : State) (e : Ev) (s' : State) : List String :=
+def nativeOf (raced : List Nat) (s : State) (e : Ev) (s' : State) : List String :=
+  let sh := showN raced s'
   let lib (t : Nat) : List String :=     -- p_uthread_current: getspecific (+ setspecific of a fresh handle)
     match (s.key 0).published with
-    | some n => ["gs" ++ toString n] ++ (if s.tls t n = 0 then ["ss" ++ toString n ++ ":H"] else [])
+    | some n => ["gs" ++ sh n] ++ (if s.tls t n = 0 then ["ss" ++ sh n ++ ":H"] else [])
     | none => []
   match e with
-  | .keyCreate _ _ => ["kc" ++ toString s.nN]
+  | .keyCreate _ _ => ["kc" ++ sh s.nN]
   | .keyCas t _ =>
     match (s.thr t).pend with
-    | some (_, n) => if (s'.nkey n).live then [] else ["kd" ++ toString n]
+    | some (_, n) => if (s'.nkey n).live then [] else ["kd" ++ sh n]
     | none => []
   | .setLocal _ k v =>
     match (s.key k).published with
-    | some n => (if setCallsNotifier then ["gs" ++ toString n] else []) ++ ["ss" ++ toString n ++ ":" ++ toString v]
+    | some n => (if setCallsNotifier then ["gs" ++ sh n] else []) ++ ["ss" ++ sh n ++ ":" ++ toString v]
     | none => []
   | .replaceLocal _ k v =>
     match (s.key k).published with
-    | some n => ["gs" ++ toString n, "ss" ++ toString n ++ ":" ++ toString v]
+    | some n => ["gs" ++ sh n, "ss" ++ sh n ++ ":" ++ toString v]
     | none => []
   | .getLocal _ k =>
     match (s.key k).published with
-    | some n => ["gs" ++ toString n]
+    | some n => ["gs" ++ sh n]
     | none => []
   | .start _ =>
     match (s.key 0).published with
-    | some n => ["ss" ++ toString n ++ ":H"]
+    | some n => ["ss" ++ sh n ++ ":H"]
     | none => []
   | .current t => lib t
   | .exit t _ => lib t
   | _ => []
 
-def runEvs (s : State) (es : List Ev) : Res :=
+def runEvs (s : State) (es : List Ev) (raced : List Nat := []) : Res :=
   let rec go (s : State) (acc : List String) : List Ev → Res
     | [] => .ok s acc
     | e :: r =>
@@ -74,7 +83,7 @@ def runEvs (s : State) (es : List Ev) : Res :=
       match step s e with
       | .error .notEnabled => .bad
       | .error x => .fault x
-      | .ok s' => go s' (acc ++ nativeOf s e s') r
+      | .ok s' => go s' (acc ++ nativeOf raced s e s') r
   go s [] es
 
 /-- the slow path of `pp_uthread_get_tls_key` when the key has no native key yet -/
@@ -140,19 +149,19 @@ def keyOf (what : String) (k : Nat) : Nat := if what = "current" ∨ what = "sta
 def step (s : St) (toks : List String) : IO (St × Bool) := do
   let bad : IO (St × Bool) := do IO.println "bad-op"; return (s, false)
   let fin (r : Res) (rM : St → State → String) (sp' : PV.UThreadSpec.S) (o : Sp.Out) (rS : String)
-      (pend' : List Pend := s.pend) (showNative := true) (status : String := "") : IO (St × Bool) := do
+      (pend' : List Pend := s.pend) (showNative := true) (status : String := "") (raced' : List Nat := s.raced) : IO (St × Bool) := do
     match r with
     | .bad => bad
     | .fault e => IO.println (faultText e); return (s, true)
     | .ok m' nat =>
       IO.println (answer s.m m' (if status = "" then nat else status :: nat) (rM s m') sp' o rS showNative)
-      return ({ s with m := m', sp := sp', pend := pend' }, false)
+      return ({ s with m := m', sp := sp', pend := pend', raced := raced' }, false)
   let m := s.m
   match toks with
   | ["reset"] => IO.println "ok"; return ({}, false)
   | ["spawn"] =>
     let r := Sp.spawn s.sp
-    fin (runEvs m [.spawn]) (fun _ _ => "T" ++ toString m.nT) r.1 {} ("T" ++ toString r.2)
+    fin (runEvs (raced := s.raced) m [.spawn]) (fun _ _ => "T" ++ toString m.nT) r.1 {} ("T" ++ toString r.2)
   | ["race", k, t1, v1, t2, v2] =>
     match k.toNat?, t1.toNat?, v1.toNat?, t2.toNat?, v2.toNat? with
     | some k, some t1, some v1, some t2, some v2 =>
@@ -160,8 +169,9 @@ def step (s : St) (toks : List String) : IO (St × Bool) := do
       let pre : List Ev := match (m.key k).published with
         | some _ => []
         | none => [.keyCreate t1 k, .keyCreate t2 k, .keyCas t1 k, .keyCas t2 k]
-      fin (runEvs m (pre ++ [.setLocal t1 k v1, .setLocal t2 k v2])) (fun _ _ => "-")
-        (Sp.setLocal (Sp.setLocal s.sp t1 k v1) t2 k v2) {} "-" s.pend false
+      let rk := if pre.isEmpty then s.raced else k :: s.raced
+      fin (runEvs (raced := rk) m (pre ++ [.setLocal t1 k v1, .setLocal t2 k v2])) (fun _ _ => "-")
+        (Sp.setLocal (Sp.setLocal s.sp t1 k v1) t2 k v2) {} "-" s.pend false "" rk
     | _, _, _, _, _ => bad
   | a :: rest =>
     match a.toNat? with
@@ -172,59 +182,62 @@ def step (s : St) (toks : List String) : IO (St × Bool) := do
       | "create" :: jd :: nm =>
         if (jd ≠ "j" ∧ jd ≠ "d") ∨ (nm ≠ [] ∧ nm ≠ ["n"]) then bad else
         let r := Sp.create s.sp (jd = "j")
-        fin (runEvs m [.createBegin a (jd = "j") (nm = ["n"]), .createEnd a])
+        fin (runEvs (raced := s.raced) m [.createBegin a (jd = "j") (nm = ["n"]), .createEnd a])
           (fun _ _ => "T" ++ toString m.nT ++ ",H" ++ toString m.nH) r.1 {} ("T" ++ toString r.2.1 ++ ",H" ++ toString r.2.2)
       | ["start"] =>
-        fin (runEvs m (needKey m a 0 ++ [.start a])) (fun _ _ => "-") s.sp {} "-"
+        fin (runEvs (raced := s.raced) m (needKey m a 0 ++ [.start a])) (fun _ _ => "-") s.sp {} "-"
       | ["set", k, v] =>
         match k.toNat?, v.toNat? with
-        | some k, some v => fin (runEvs m (needKey m a k ++ [.setLocal a k v])) (fun _ _ => "-") (Sp.setLocal s.sp a k v) {} "-"
+        | some k, some v => fin (runEvs (raced := s.raced) m (needKey m a k ++ [.setLocal a k v])) (fun _ _ => "-") (Sp.setLocal s.sp a k v) {} "-"
         | _, _ => bad
       | ["replace", k, v] =>
         match k.toNat?, v.toNat? with
         | some k, some v =>
           let r := Sp.replaceLocal s.sp a k v
-          fin (runEvs m (needKey m a k ++ [.replaceLocal a k v])) (fun _ _ => "-") r.1 r.2 "-"
+          fin (runEvs (raced := s.raced) m (needKey m a k ++ [.replaceLocal a k v])) (fun _ _ => "-") r.1 r.2 "-"
         | _, _ => bad
       | ["get", k] =>
         match k.toNat? with
-        | some k => fin (runEvs m (needKey m a k ++ [.getLocal a k])) (fun _ m' => lastGet m') s.sp {} (toString (s.sp.cell a k))
+        | some k => fin (runEvs (raced := s.raced) m (needKey m a k ++ [.getLocal a k])) (fun _ m' => lastGet m') s.sp {} (toString (s.sp.cell a k))
         | _ => bad
       | ["current"] =>
         let r := Sp.current s.sp a
-        fin (runEvs m (needKey m a 0 ++ [.current a])) (fun _ m' => lastCur m') r.1 {} ("H" ++ toString r.2)
+        fin (runEvs (raced := s.raced) m (needKey m a 0 ++ [.current a])) (fun _ m' => lastCur m') r.1 {} ("H" ++ toString r.2)
       | ["exit", c] =>
         match c.toInt? with
         | some c =>
           match (m.thr a).handle with
-          | some _ => fin (runEvs m (needKey m a 0 ++ [.exit a c])) (fun _ _ => "-") (Sp.exit s.sp a c) {} "-"
+          | some _ => fin (runEvs (raced := s.raced) m (needKey m a 0 ++ [.exit a c])) (fun _ _ => "-") (Sp.exit s.sp a c) {} "-"
           | none =>   -- a thread the library did not create: the harness calls `current` (to learn the block), then `exit`, which returns
             let r := Sp.current s.sp a
-            fin (runEvs m (needKey m a 0 ++ [.current a, .exit a c])) (fun _ _ => "noexit") (Sp.exit r.1 a c) {} "noexit"
+            fin (runEvs (raced := s.raced) m (needKey m a 0 ++ [.current a, .exit a c])) (fun _ _ => "noexit") (Sp.exit r.1 a c) {} "noexit"
         | none => bad
-      | ["return"] => fin (runEvs m [.ret a]) (fun _ _ => "-") s.sp {} "-"
+      | ["return"] => fin (runEvs (raced := s.raced) m [.ret a]) (fun _ _ => "-") s.sp {} "-"
       | ["end"] =>
         let r := Sp.threadEnd s.sp a
-        fin (runEvs m [.threadEnd a]) (fun _ _ => "-") r.1 r.2 "-"
+        fin (runEvs (raced := s.raced) m [.threadEnd a]) (fun _ _ => "-") r.1 r.2 "-"
       | ["ref", h] =>
         match h.toNat? with
-        | some h => fin (runEvs m [.ref a h]) (fun _ _ => "-") (Sp.ref s.sp h) {} "-"
+        | some h => fin (runEvs (raced := s.raced) m [.ref a h]) (fun _ _ => "-") (Sp.ref s.sp h) {} "-"
         | none => bad
       | ["unref", h] =>
         match h.toNat? with
-        | some h => let r := Sp.drop s.sp h; fin (runEvs m [.unref a h]) (fun _ _ => "-") r.1 { freed := r.2 } "-"
+        | some h => let r := Sp.drop s.sp h; fin (runEvs (raced := s.raced) m [.unref a h]) (fun _ _ => "-") r.1 { freed := r.2 } "-"
         | none => bad
       | ["join", h] =>
         match h.toNat? with
-        | some h => fin (runEvs m [.join a h]) (fun _ m' => lastJoin m') s.sp {} (toString (Sp.join s.sp h))
+        | some h => fin (runEvs (raced := s.raced) m [.join a h]) (fun _ m' => lastJoin m') s.sp {} (toString (Sp.join s.sp h))
         | none => bad
       | ["keynew", n] =>
         if n ≠ "n" ∧ n ≠ "x" then bad else
         let r := Sp.keyNew s.sp (n = "n")
-        fin (runEvs m [.localNew a (n = "n")]) (fun _ _ => "K" ++ toString m.nK) r.1 {} ("K" ++ toString r.2)
+        fin (runEvs (raced := s.raced) m [.localNew a (n = "n")]) (fun _ _ => "K" ++ toString m.nK) r.1 {} ("K" ++ toString r.2)
       | ["keyfree", k] =>
         match k.toNat? with
-        | some k => fin (runEvs m [.localFree a k]) (fun _ _ => "-") s.sp {} "-"
+        | some k =>
+          -- freeing a key while a thread is parked inside a call on it is a misuse of the TLS API (refused)
+          if s.pend.any (·.k = k) then bad else
+          fin (runEvs (raced := s.raced) m [.localFree a k]) (fun _ _ => "-") s.sp {} "-"
         | none => bad
       | ["kbegin", what, k, v] =>
         match k.toNat?, v.toNat? with
@@ -241,10 +254,10 @@ def step (s : St) (toks : List String) : IO (St × Bool) := do
             else match (m.key k).published with
             | some _ =>
               let r := specTls s.sp what a k v
-              fin (runEvs m [e]) (fun _ m' => if what = "get" then lastGet m' else if what = "current" then lastCur m' else "-")
+              fin (runEvs (raced := s.raced) m [e]) (fun _ m' => if what = "get" then lastGet m' else if what = "current" then lastCur m' else "-")
                 r.1 r.2.1 r.2.2 s.pend true "done"
             | none =>
-              fin (runEvs m [.keyCreate a k]) (fun _ _ => "-") s.sp {} "-" ({ t := a, what := what, k := k, v := v } :: s.pend) true "atcas"
+              fin (runEvs (raced := s.raced) m [.keyCreate a k]) (fun _ _ => "-") s.sp {} "-" ({ t := a, what := what, k := k, v := v } :: s.pend) true "atcas"
         | _, _ => bad
       | ["kcas"] =>
         match s.pend.find? (·.t = a) with
@@ -255,7 +268,7 @@ def step (s : St) (toks : List String) : IO (St × Bool) := do
           | some e =>
             let won := (m.key p.k).published.isNone
             let r := specTls s.sp p.what a p.k p.v
-            fin (runEvs m [.keyCas a p.k, e])
+            fin (runEvs (raced := s.raced) m [.keyCas a p.k, e])
               (fun _ m' => if p.what = "get" then lastGet m' else if p.what = "current" then lastCur m' else "-")
               r.1 r.2.1 r.2.2 (s.pend.filter (·.t ≠ a)) true (if won then "won" else "lost")
       | _ => bad
